@@ -801,4 +801,545 @@ Section Core.
         apply (groups_disjoint _ _ _ _ _ _ _ _ Ht Hnds Hne Hin Hn). exact Hm.
       + exists (kvs_o :: exts). split; [|constructor; auto]. rewrite Hrun. simpl. rewrite <- app_assoc. reflexivity.
   Qed.
+
+  (** ** assembling the result object of an object-level plan *)
+  Lemma forall2_locs : forall obj id locs kvs1,
+    Forall2 (fun n kv => fst kv = n_alias n /\ simv (snd kv) (nval w g (annot n) obj id)) locs kvs1 ->
+    NoDup (map n_alias locs) ->
+    map fst kvs1 = map n_alias locs /\
+    forall n, In n locs -> exists v, lookup (n_alias n) kvs1 = Some v /\ simv v (nval w g (annot n) obj id).
+  Proof.
+    intros obj id locs kvs1 HF. induction HF as [|n [k v] locs kvs1 [Hk Hv] _ IH]; intros Hnd.
+    - split; [reflexivity | intros n []].
+    - simpl in Hk. subst k. inversion Hnd as [|? ? Hn Hnd']; subst. destruct (IH Hnd') as [IH1 IH2].
+      split; [simpl; rewrite IH1; reflexivity|]. intros m [->|Hm].
+      + exists v. simpl. rewrite String.eqb_refl. auto.
+      + destruct (IH2 m Hm) as [v' [Hl Hs]]. exists v'. split; auto. simpl.
+        destruct (String.eqb (n_alias m) (n_alias n)) eqn:E; auto. apply String.eqb_eq in E. exfalso. apply Hn.
+        rewrite <- E. apply in_map; exact Hm.
+  Qed.
+
+  Lemma others_nil_all : forall obj svc sels tagged,
+    mapo (target_of g pick obj svc) sels = Some tagged -> others_of svc tagged = [] -> sels_for tagged svc = sels.
+  Proof.
+    intros obj svc sels tagged Ht Ho. apply tagged_spec in Ht.
+    assert (Hall : Forall (fun p => snd p = svc) tagged).
+    { apply Forall_forall. intros [n t] Hin. simpl. destruct (String.eqb t svc) eqn:E; [apply String.eqb_eq; exact E|].
+      exfalso. assert (Hin' : In t (others_of svc tagged)).
+      { unfold others_of. apply sorted_names_In. apply in_map_iff. exists (n, t). split; auto.
+        apply filter_In. split; auto. simpl. rewrite E. reflexivity. }
+      rewrite Ho in Hin'. contradiction. }
+    unfold sels_for.
+    assert (Hf : filter (fun p : node * string => String.eqb (snd p) svc) tagged = tagged).
+    { clear -Hall. induction Hall as [|p t Hp _ IH]; [reflexivity|]. simpl. rewrite Hp, String.eqb_refl, IH. reflexivity. }
+    rewrite Hf. clear -Ht. induction Ht as [|x p sels tagged [Hx _] _ IH]; [reflexivity|]. simpl. rewrite Hx, IH. reflexivity.
+  Qed.
+
+  Lemma in_others : forall svc tagged n t, In (n, t) tagged -> t <> svc -> In t (others_of svc tagged).
+  Proof.
+    intros svc tagged n t Hin Hne. unfold others_of. apply sorted_names_In. apply in_map_iff. exists (n, t). split; auto.
+    apply filter_In. split; auto. simpl. apply negb_true_iff. apply String.eqb_neq. exact Hne.
+  Qed.
+
+  Lemma others_not_svc : forall svc tagged o, In o (others_of svc tagged) -> o <> svc.
+  Proof.
+    intros svc tagged o Hin. unfold others_of in Hin. apply (proj1 (sorted_names_In _ _)) in Hin.
+    apply in_map_iff in Hin as [[n t] [Ht Hin]]. simpl in Ht. subst t. apply filter_In in Hin as [_ Hne]. simpl in Hne.
+    apply negb_true_iff in Hne. apply String.eqb_neq in Hne. exact Hne.
+  Qed.
+
+  Lemma others_fkeys : forall obj svc sels tagged o,
+    mapo (target_of g pick obj svc) sels = Some tagged -> obj <> "Query" ->
+    In o (others_of svc tagged) -> In "id" (fkeys_of g obj o).
+  Proof.
+    intros obj svc sels tagged o Ht Hq Hin. pose proof (others_not_svc _ _ _ Hin) as Hne.
+    unfold others_of in Hin. apply (proj1 (sorted_names_In _ _)) in Hin.
+    apply in_map_iff in Hin as [[n t] [Hto Hin]]. simpl in Hto. subst t. apply filter_In in Hin as [Hin _].
+    assert (Hs : In n (sels_for tagged o)).
+    { unfold sels_for. apply in_map_iff. exists (n, o). split; auto. apply filter_In. split; auto. simpl. apply String.eqb_refl. }
+    destruct (sels_for_in _ _ _ _ _ _ Ht Hs) as [_ Htar].
+    destruct (target_of_spec g pick pick_sound _ _ _ _ _ Htar) as [_ [al [nm [args [ak [dirs [hs [subs [-> Hcase]]]]]]]]].
+    destruct Hcase as [[_ Hx]|[rty [owners [Hf Hown]]]]; [congruence|].
+    destruct fed_ok2_parts as [Ha _]. eapply Ha; eauto.
+  Qed.
+
+  Lemma planned_aliases : forall fuel obj svc locs planned,
+    Forall2 (fun n p => child_plan g pick fuel obj svc n = Some p) locs planned ->
+    Forall2 (fun n p => exists al nm args ak dirs hs subs hs' cs,
+               n = NField al nm args ak dirs hs subs /\ fst p = NField al nm args ak [] hs' cs) locs planned.
+  Proof.
+    intros fuel obj svc locs planned HF. induction HF as [|n p locs planned Hc _ IH]; constructor; auto.
+    destruct n as [al nm args ak dirs hs subs|]; [|discriminate]. cbn [child_plan] in Hc.
+    destruct hs.
+    - destruct (if String.eqb nm "__typename" then Some RScalar else option_map fst (find_gfield g obj nm)) as [t|]; [|discriminate].
+      destruct (plan_ty g pick fuel t subs svc) as [[cs cafters]|]; [|discriminate]. inversion Hc; subst p.
+      exists al, nm, args, ak, dirs, true, subs, true, cs. auto.
+    - inversion Hc; subst p. exists al, nm, args, ak, dirs, false, subs, false, []. auto.
+  Qed.
+
+  Lemma concat_exts_spec : forall obj svc sels tagged id others exts,
+    mapo (target_of g pick obj svc) sels = Some tagged -> NoDup (map n_alias sels) -> NoDup others ->
+    Forall2 (fun o kvs => post w g obj id (sels_for tagged o) false kvs) others exts ->
+    NoDup (map fst (List.concat exts)) /\
+    (forall k, In k (map fst (List.concat exts)) <-> exists o n, In o others /\ In n (sels_for tagged o) /\ n_alias n = k) /\
+    (forall o n, In o others -> In n (sels_for tagged o) ->
+       exists v, lookup (n_alias n) (List.concat exts) = Some v /\ simv v (nval w g (annot n) obj id)).
+  Proof.
+    intros obj svc sels tagged id others exts Ht Hnds Hnd HF.
+    induction HF as [|o kvs others exts Hpost _ IH].
+    - simpl. split; [constructor|]. split; [split; [intros [] | intros [o [n [[] _]]]] | intros o n []].
+    - inversion Hnd as [|? ? Hno Hnd']; subst. destruct (IH Hnd') as [IH1 [IH2 IH3]].
+      destruct Hpost as [P1 [P2 P3]]. simpl List.concat. rewrite map_app.
+      assert (Hkeys_o : forall k, In k (map fst kvs) <-> exists n, In n (sels_for tagged o) /\ n_alias n = k).
+      { intros k. rewrite P2. split.
+        - intros [Hin|[Hx _]]; [|discriminate]. apply in_map_iff in Hin as [n [Hn Hin]]. eauto.
+        - intros [n [Hin Hn]]. left. subst k. apply in_map; exact Hin. }
+      split; [|split].
+      + apply NoDup_app_intro; auto. intros k Hk Hk2. apply Hkeys_o in Hk as [n [Hn Hkn]]. apply IH2 in Hk2 as [o2 [m [Ho2 [Hm Hkm]]]].
+        assert (Hne : o <> o2) by (intros ->; contradiction).
+        apply (groups_disjoint _ _ _ _ _ _ _ _ Ht Hnds Hne Hn Hm). congruence.
+      + intros k. rewrite in_app_iff, Hkeys_o, IH2. split.
+        * intros [[n [Hn Hk]]|[o2 [n [Ho2 [Hn Hk]]]]]; [exists o, n | exists o2, n]; simpl; auto.
+        * intros [o2 [n [[<-|Ho2] [Hn Hk]]]]; [left; eauto | right; eauto].
+      + intros o2 n [<-|Ho2] Hn.
+        * destruct (P3 n Hn) as [v [Hl Hs]]. exists v. split; auto. rewrite lookup_app, Hl. reflexivity.
+        * destruct (IH3 o2 n Ho2 Hn) as [v [Hl Hs]]. exists v. split; auto. rewrite lookup_app.
+          assert (Hnone : lookup (n_alias n) kvs = None).
+          { apply lookup_none_notin. intros Hin. apply Hkeys_o in Hin as [m [Hm Hk]].
+            assert (Hne : o <> o2) by (intros ->; contradiction).
+            apply (groups_disjoint _ _ _ _ _ _ _ _ Ht Hnds Hne Hm Hn). exact Hk. }
+          rewrite Hnone. exact Hl.
+  Qed.
+
+  Lemma node_alias_facts : forall obj sels n, forallb (node_ok g (RObj obj)) sels = true -> In n sels ->
+    n_alias n <> federation_field /\ n_alias n <> "__key" /\ is_field n = true.
+  Proof.
+    intros obj sels n H Hin. eapply forallb_forall in H; [|exact Hin].
+    destruct n as [al nm args ak dirs hs subs|]; [|discriminate]. cbn [node_ok] in H.
+    apply andb_prop in H as [H _]. apply andb_prop in H as [Hal _].
+    destruct (alias_ok_parts _ _ Hal) as [H1 [H2 _]]. auto.
+  Qed.
+
+  (** the object level: planObject's split, its key selection and its sub-plans reproduce the selection set *)
+  Theorem S_step : forall fuel, V_stmt w g pick fuel -> S_stmt w g pick fuel -> S_stmt w g pick (S fuel).
+  Proof.
+    intros fuel HV HS obj sels svc ss afters Hpl Hflat Hloc id pre Hpre.
+    destruct (plan_obj_inv g pick fuel obj sels svc ss afters Hpl) as [tagged [planned [oplans [Ht [Hp [Ho Hcase]]]]]].
+    pose proof Hflat as Hflat'. unfold flat_ok in Hflat'. apply andb_prop in Hflat' as [Hnd0 Hnok].
+    rewrite (filter_included_all obj sels Hnok) in Ht.
+    assert (Hnds : NoDup (map n_alias sels)) by (apply nodup_str_NoDup; exact Hnd0).
+    pose proof (mapo_Forall2 _ _ _ Hp) as Fp.
+    pose proof (forallb_sels_for _ _ _ _ svc _ Ht Hnok) as Hlocs_ok.
+    pose proof (sels_for_nodup _ _ _ _ svc Ht Hnds) as Hlocs_nd.
+    destruct Hpre as [[pre' Hpre1] [Hpre2 Hpre3]].
+    assert (Hpre_none : forall n, In n sels -> lookup (n_alias n) pre = None).
+    { intros n Hn. apply lookup_none_notin. intros Hin. apply Hpre2 in Hin as [Hx _]. apply Hx. apply in_map; exact Hn. }
+    assert (HA : forall n, In n (sels_for tagged svc) -> lookup (n_alias n) pre = None).
+    { intros n Hn. apply Hpre_none. apply (sels_for_in _ _ _ _ _ _ Ht Hn). }
+    destruct Hcase as [[Hoth [-> ->]]|[Hoth [Hhalf [-> Hfedsel]]]].
+    - (* everything stays with this service *)
+      destruct (phase1 fuel HV obj svc id _ _ Fp Hlocs_ok Hlocs_nd pre [] HA) as [kvs1 [Hrun HF1]].
+      rewrite !app_nil_r in Hrun. exists kvs1, false. split; [exact Hrun|]. split; [|auto].
+      rewrite (others_nil_all _ _ _ _ Ht Hoth) in *.
+      destruct (forall2_locs _ _ _ _ HF1 Hnds) as [Hk Hv].
+      split; [rewrite Hk; exact Hnds|]. split; [|exact Hv].
+      intros k. rewrite Hk. split; [auto | intros [H|[Hx _]]; [exact H | discriminate]].
+    - (* some selections go to other services *)
+      assert (Hq : obj <> "Query").
+      { destruct Hloc as [Hq|Hl]; [exact Hq|]. exfalso. apply Hoth. apply (local_all_split _ _ _ _ Ht Hl). }
+      (* the key selection is added *)
+      assert (Hnofed : existsb is_fed_sel (map fst planned) = false).
+      { pose proof (planned_aliases _ _ _ _ _ Fp) as Hpa. clear -Hpa Hlocs_ok.
+        induction Hpa as [|n p locs planned Hn _ IH]; [reflexivity|]. simpl in Hlocs_ok. apply andb_prop in Hlocs_ok as [Hok1 Hok2'].
+        simpl. rewrite (IH Hok2'), orb_false_r.
+        destruct Hn as [al [nm [args [ak [dirs [hs [subs [hs' [cs [-> Hp]]]]]]]]]]. rewrite Hp. simpl.
+        cbn [node_ok] in Hok1. apply andb_prop in Hok1 as [Hok1 _]. apply andb_prop in Hok1 as [Hal _].
+        destruct (alias_ok_parts _ _ Hal) as [H1 _]. apply String.eqb_neq in H1. rewrite H1. reflexivity. }
+      destruct Hfedsel as [[Hx _]|[_ ->]]; [congruence|].
+      set (others := others_of svc tagged) in *.
+      set (ks := sorted_names (List.concat (map (fkeys_of g obj) others))).
+      set (Kobj := JObj (key_kv K obj id ++ key_entries obj id ks)).
+      rewrite evs_app. change (evs EV [key_selection g obj others] obj id) with (EV (key_selection g obj others) obj id ++ []).
+      rewrite ev_key_selection. fold ks. fold Kobj. rewrite app_nil_r.
+      destruct (phase1 fuel HV obj svc id _ _ Fp Hlocs_ok Hlocs_nd pre [(federation_field, Kobj)] HA) as [kvs1 [Hrun HF1]].
+      rewrite RA_app, Hrun.
+      destruct (forall2_locs _ _ _ _ HF1 Hlocs_nd) as [Hk1 Hv1].
+      pose proof (mapo_Forall2 _ _ _ Ho) as Fo.
+      assert (Hfk : forall o, In o others -> In "id" (fkeys_of g obj o)) by (intros o Hin; eapply others_fkeys; eauto).
+      assert (Hid : In "id" ks).
+      { destruct others as [|o1 orest] eqn:Eo; [contradiction|]. unfold ks. apply sorted_names_In. apply in_concat.
+        exists (fkeys_of g obj o1). split; [left; reflexivity | apply Hfk; left; reflexivity]. }
+      assert (Hfed_kvs1 : lookup federation_field kvs1 = None).
+      { apply lookup_none_notin. rewrite Hk1. intros Hin. apply in_map_iff in Hin as [n [Hn Hin]].
+        destruct (sels_for_in _ _ _ _ _ _ Ht Hin) as [Hin' _].
+        destruct (node_alias_facts _ _ _ Hnok Hin') as [Hx _]. contradiction. }
+      assert (Hfed_pre : lookup federation_field pre = None).
+      { apply lookup_none_notin. intros Hin. apply Hpre2 in Hin as [_ Hx]. congruence. }
+      destruct (phase2 fuel HS obj svc sels tagged id ks Ht Hflat Hq Hid others oplans Fo (sorted_names_NoDup _) Hfk
+                  (pre ++ kvs1 ++ [(federation_field, Kobj)])) as [exts [Hrun2 HF2]].
+      + rewrite !lookup_app, Hfed_pre, Hfed_kvs1. cbn [lookup]. rewrite String.eqb_refl. reflexivity.
+      + intros Hk. rewrite Hpre1, <- app_assoc, lookup_app. unfold key_kv. rewrite Hk. reflexivity.
+      + intros o n Ho' Hn. destruct (sels_for_in _ _ _ _ _ _ Ht Hn) as [Hin' _].
+        rewrite !lookup_app, (Hpre_none n Hin').
+        assert (H1 : lookup (n_alias n) kvs1 = None).
+        { apply lookup_none_notin. rewrite Hk1. intros Hin. apply in_map_iff in Hin as [m [Hm Hin]].
+          pose proof (others_not_svc _ _ _ Ho') as Hne.
+          apply (groups_disjoint _ _ _ _ _ _ _ _ Ht Hnds Hne Hn Hin). congruence. }
+        rewrite H1. cbn [lookup]. destruct (node_alias_facts _ _ _ Hnok Hin') as [Hx _].
+        apply String.eqb_neq in Hx. rewrite Hx. reflexivity.
+      + rewrite Hrun2. exists (kvs1 ++ [(federation_field, Kobj)] ++ List.concat exts), true.
+        split; [rewrite <- !app_assoc; reflexivity|]. split; [|intros Hl; exfalso; apply Hoth; apply (local_all_split _ _ _ _ Ht Hl)].
+        destruct (concat_exts_spec _ _ _ _ id _ _ Ht Hnds (sorted_names_NoDup _) HF2) as [E1 [E2 E3]].
+        assert (Hgroup : forall n, In n sels -> In n (sels_for tagged svc) \/ exists o, In o others /\ In n (sels_for tagged o)).
+        { intros n Hn. destruct (in_sels_tagged _ _ _ _ _ Ht Hn) as [t [Hin Hs]].
+          destruct (string_dec t svc) as [->|Hne]; [left; exact Hs | right; exists t; split; [eapply in_others; eauto | exact Hs]]. }
+        split; [|split].
+        * (* distinct keys *)
+          rewrite !map_app. apply NoDup_app_intro.
+          -- rewrite Hk1; exact Hlocs_nd.
+          -- simpl. constructor; [|exact E1]. intros Hin. apply E2 in Hin as [o [n [Ho' [Hn Hk]]]].
+             destruct (sels_for_in _ _ _ _ _ _ Ht Hn) as [Hin' _]. destruct (node_alias_facts _ _ _ Hnok Hin') as [Hx _]. congruence.
+          -- intros k Hk Hk2. rewrite Hk1 in Hk. apply in_map_iff in Hk as [m [Hm Hmin]]. simpl in Hk2. destruct Hk2 as [Hk2|Hk2].
+             ++ subst k. destruct (sels_for_in _ _ _ _ _ _ Ht Hmin) as [Hin' _]. destruct (node_alias_facts _ _ _ Hnok Hin') as [Hx _]. congruence.
+             ++ apply E2 in Hk2 as [o [n [Ho' [Hn Hkn]]]]. pose proof (others_not_svc _ _ _ Ho') as Hne.
+                apply (groups_disjoint _ _ _ _ _ _ _ _ Ht Hnds Hne Hn Hmin). congruence.
+        * (* the key set *)
+          intros k. rewrite !map_app, !in_app_iff, Hk1. simpl. rewrite E2. split.
+          -- intros [Hin|[[Hx|[]]|[o [n [Ho' [Hn Hk]]]]]].
+             ++ left. apply in_map_iff in Hin as [n [Hn Hin]]. subst k. apply in_map. apply (sels_for_in _ _ _ _ _ _ Ht Hin).
+             ++ right. auto.
+             ++ left. subst k. apply in_map. apply (sels_for_in _ _ _ _ _ _ Ht Hn).
+          -- intros [Hin|[_ ->]]; [|right; left; left; reflexivity].
+             apply in_map_iff in Hin as [n [Hn Hin]]. subst k. destruct (Hgroup n Hin) as [Hl|[o [Ho' Hs]]].
+             ++ left. apply in_map; exact Hl.
+             ++ right. right. exists o, n. auto.
+        * (* the values *)
+          intros n Hn. destruct (Hgroup n Hn) as [Hl|[o [Ho' Hs]]].
+          -- destruct (Hv1 n Hl) as [v [Hlk Hs]]. exists v. split; auto. rewrite lookup_app, Hlk. reflexivity.
+          -- destruct (E3 o n Ho' Hs) as [v [Hlk Hsv]]. exists v. split; auto. rewrite !lookup_app.
+             assert (H1 : lookup (n_alias n) kvs1 = None).
+             { apply lookup_none_notin. rewrite Hk1. intros Hin. apply in_map_iff in Hin as [m [Hm Hin]].
+               pose proof (others_not_svc _ _ _ Ho') as Hne.
+               apply (groups_disjoint _ _ _ _ _ _ _ _ Ht Hnds Hne Hs Hin). congruence. }
+             rewrite H1. cbn [lookup app]. destruct (node_alias_facts _ _ _ Hnok Hn) as [Hx _]. apply String.eqb_neq in Hx. rewrite Hx. exact Hlk.
+  Qed.
+
+  (** ** the union level *)
+  Definition frag_plan (fuel : nat) (svc : string) (n : node) : option (node * list plan) :=
+    match n with
+    | NFrag on _ body =>
+        match plan_ty g pick fuel (RObj on) body svc with
+        | None => None
+        | Some (cs, cafters) => Some (NFrag on [] cs, map (push_step (SType on)) cafters)
+        end
+    | NField _ _ _ _ _ _ _ => None
+    end.
+
+  Definition all_frags (l : list node) : Prop := Forall (fun n => is_field n = false) l.
+
+  Lemma all_frags_ok : forall u l, forallb (node_ok g (RUnion u)) l = true -> all_frags l.
+  Proof.
+    intros u l H. apply Forall_forall. intros n Hn. eapply forallb_forall in H; eauto. destruct n; [simpl in H; discriminate | reflexivity].
+  Qed.
+
+  Lemma all_frags_filters : forall l, all_frags l -> fields_of l = [] /\ frags_of l = l.
+  Proof.
+    intros l H. induction H as [|n t Hn _ [IH1 IH2]]; [split; reflexivity|]. unfold fields_of, frags_of in *. simpl. rewrite Hn. simpl.
+    rewrite IH1, IH2. split; reflexivity.
+  Qed.
+
+  Lemma plan_union_inv : forall fuel u sels svc cs cafters,
+    plan_ty g pick (S fuel) (RUnion u) sels svc = Some (cs, cafters) -> all_frags sels ->
+    exists planned, mapo (frag_plan fuel svc) sels = Some planned /\
+                    cs = tn_sel :: map fst planned /\ cafters = List.concat (map snd planned).
+  Proof.
+    intros fuel u sels svc cs cafters H Hf. destruct (all_frags_filters _ Hf) as [F1 F2]. simpl in H.
+    destruct (union_members g u) as [ms|]; [|discriminate].
+    match type of H with (if ?c then _ else _) = _ => destruct c; [discriminate|] end.
+    rewrite F1, F2 in H.
+    destruct (negb (nodup_str (map n_alias sels))); [discriminate|].
+    destruct (negb (forallb (fun n => existsb (String.eqb (n_alias n)) ms) sels)); [discriminate|].
+    fold (frag_plan fuel svc) in H.
+    destruct (mapo (frag_plan fuel svc) sels) as [planned|]; [|discriminate].
+    exists planned. inversion H; subst. auto.
+  Qed.
+
+  Lemma pick_gen_skip : forall all t i l r,
+    (forall n, In n l -> match n with NFrag on _ _ => on <> t | _ => True end) ->
+    pick_gen K EV all t i (l ++ r) = pick_gen K EV all t i r.
+  Proof.
+    intros all t i l r H. induction l as [|n l' IH]; [reflexivity|]. simpl app.
+    assert (IH' : pick_gen K EV all t i (l' ++ r) = pick_gen K EV all t i r) by (apply IH; intros m Hm; apply H; right; exact Hm).
+    destruct n as [al nm args ak dirs hs subs|on dirs body]; cbn [pick_gen]; [exact IH'|].
+    pose proof (H _ (or_introl eq_refl)) as Hne. simpl in Hne. apply String.eqb_neq in Hne. rewrite Hne. exact IH'.
+  Qed.
+
+  (** the blocks of sub-plans of the other members leave an object of member [t] alone *)
+  Lemma RA_other_members : forall fuel svc t l planned L,
+    Forall2 (fun n p => frag_plan fuel svc n = Some p) l planned ->
+    (forall n, In n l -> n_alias n <> t) ->
+    lookup "__typename" L = Some (JStr t) ->
+    RA (List.concat (map snd planned)) (JObj L) = Some (JObj L).
+  Proof.
+    intros fuel svc t l planned L HF. induction HF as [|n p l planned Hp _ IH]; intros Hne Hl; [reflexivity|].
+    simpl. rewrite RA_app.
+    destruct n as [|on dirs body]; [discriminate|]. cbn [frag_plan] in Hp.
+    destruct (plan_ty g pick fuel (RObj on) body svc) as [[cs cafters]|]; [|discriminate]. inversion Hp; subst p. cbn [snd].
+    rewrite (RA_lift_type w g on cafters L t Hl).
+    assert (E : String.eqb t on = false).
+    { apply String.eqb_neq. intros ->. apply (Hne _ (or_introl eq_refl)). reflexivity. }
+    rewrite E. apply IH; auto. intros m Hm. apply Hne. right; exact Hm.
+  Qed.
+
+  Lemma pushed_eval : forall (body : list node) t i rest,
+    Forall (fun n => is_field n = false) rest ->
+    flat_map (fun x => if is_field x && negb (existsb (String.eqb (n_alias x)) (map n_alias body)) then EV x t i else [])
+             (tn_sel :: rest) =
+    if existsb (String.eqb "__typename") (map n_alias body) then [] else [("__typename", JStr t)].
+  Proof.
+    intros body t i rest Hr. cbn [flat_map].
+    assert (H0 : flat_map (fun x => if is_field x && negb (existsb (String.eqb (n_alias x)) (map n_alias body)) then EV x t i else []) rest = []).
+    { induction Hr as [|n r Hn _ IH]; [reflexivity|]. simpl. rewrite Hn. simpl. exact IH. }
+    rewrite H0, app_nil_r. unfold tn_sel. cbn [is_field n_alias andb].
+    destruct (existsb (String.eqb "__typename") (map n_alias body)); reflexivity.
+  Qed.
+
+  Lemma planned_fst_aliases : forall fuel obj svc locs planned,
+    Forall2 (fun n p => child_plan g pick fuel obj svc n = Some p) locs planned ->
+    map n_alias (map fst planned) = map n_alias locs /\ all_fields (map fst planned).
+  Proof.
+    intros fuel obj svc locs planned HF. apply planned_aliases in HF.
+    induction HF as [|n p locs planned Hn _ [IH1 IH2]]; [split; [reflexivity | constructor]|].
+    destruct Hn as [al [nm [args [ak [dirs [hs [subs [hs' [cs [-> Hp]]]]]]]]]]. simpl. rewrite Hp, IH1. simpl.
+    split; [reflexivity | constructor; [reflexivity | exact IH2]].
+  Qed.
+
+  (** a __typename selection always stays with the service that is being planned for, so the planned
+      selection set answers alias "__typename" iff the selection set does -- with the type name *)
+  Lemma typename_local : forall fuel obj body svc cs cafters id,
+    plan_ty g pick fuel (RObj obj) body svc = Some (cs, cafters) -> flat_ok g obj body = true ->
+    existsb (String.eqb "__typename") (map n_alias cs) = existsb (String.eqb "__typename") (map n_alias body) /\
+    (existsb (String.eqb "__typename") (map n_alias body) = true ->
+     lookup "__typename" (evs EV cs obj id) = Some (JStr obj)).
+  Proof.
+    intros fuel obj body svc cs cafters id Hpl Hflat. destruct fuel as [|fuel]; [discriminate|].
+    destruct (plan_obj_inv g pick fuel obj body svc cs cafters Hpl) as [tagged [planned [oplans [Ht [Hp [Ho Hcase]]]]]].
+    pose proof Hflat as Hflat'. unfold flat_ok in Hflat'. apply andb_prop in Hflat' as [Hnd0 Hnok].
+    rewrite (filter_included_all obj body Hnok) in Ht.
+    assert (Hnds : NoDup (map n_alias body)) by (apply nodup_str_NoDup; exact Hnd0).
+    pose proof (mapo_Forall2 _ _ _ Hp) as Fp.
+    destruct (planned_fst_aliases _ _ _ _ _ Fp) as [Hal Hfields].
+    pose proof (sels_for_nodup _ _ _ _ svc Ht Hnds) as Hlocs_nd.
+    (* the aliases of cs: those of the local selections, plus possibly _federation *)
+    assert (Hcs : exists tail, cs = map fst planned ++ tail /\
+                               (tail = [] \/ tail = [key_selection g obj (others_of svc tagged)])).
+    { destruct Hcase as [[_ [-> _]]|[_ [_ [_ [[_ ->]|[_ ->]]]]]].
+      - exists []. rewrite app_nil_r. auto.
+      - exists []. rewrite app_nil_r. auto.
+      - exists [key_selection g obj (others_of svc tagged)]. auto. }
+    destruct Hcs as [tail [-> Htail]].
+    assert (Htn_tail : existsb (String.eqb "__typename") (map n_alias tail) = false /\ lookup "__typename" (evs EV tail obj id) = None).
+    { destruct Htail as [->| ->]; [split; reflexivity|]. split; reflexivity. }
+    destruct Htn_tail as [Htt1 Htt2].
+    (* a selection with alias __typename is the __typename field, a leaf, and is local *)
+    assert (Hloc_tn : forall n, In n body -> n_alias n = "__typename" ->
+                      In n (sels_for tagged svc) /\
+                      exists args ak, n = NField "__typename" "__typename" args ak [] false []).
+    { intros n Hn Ha. eapply forallb_forall in Hnok as Hno; [|exact Hn].
+      destruct n as [al nm args ak dirs hs subs|]; [|discriminate]. simpl in Ha. subst al. cbn [node_ok] in Hno.
+      apply andb_prop in Hno as [Hno Hno3]. apply andb_prop in Hno as [Halok Hd]. destruct dirs; [|discriminate].
+      destruct (alias_ok_parts _ _ Halok) as [_ [_ [_ Htn]]]. pose proof (proj1 Htn eq_refl) as Hnm. subst nm.
+      rewrite String.eqb_refl in Hno3. apply andb_prop in Hno3 as [Hhs Hsubs]. apply negb_true_iff in Hhs. subst hs.
+      destruct subs; [|discriminate].
+      destruct (in_sels_tagged _ _ _ _ _ Ht Hn) as [t0 [Hin Hs]].
+      destruct (sels_for_in _ _ _ _ _ _ Ht Hs) as [_ Htar]. simpl in Htar. inversion Htar; subst t0. split; [exact Hs|].
+      exists args, ak. reflexivity. }
+    split.
+    - rewrite map_app, existsb_app, Htt1, orb_false_r, Hal.
+      destruct (existsb (String.eqb "__typename") (map n_alias body)) eqn:E.
+      + apply existsb_eqb_In in E. apply in_map_iff in E as [n [Ha Hn]]. destruct (Hloc_tn n Hn Ha) as [Hs _].
+        apply existsb_eqb_In. rewrite <- Ha. apply in_map; exact Hs.
+      + destruct (existsb (String.eqb "__typename") (map n_alias (sels_for tagged svc))) eqn:E2; [|reflexivity].
+        apply existsb_eqb_In in E2. apply in_map_iff in E2 as [n [Ha Hn]].
+        destruct (sels_for_in _ _ _ _ _ _ Ht Hn) as [Hn' _].
+        assert (Hc : existsb (String.eqb "__typename") (map n_alias body) = true).
+        { apply existsb_eqb_In. rewrite <- Ha. apply in_map; exact Hn'. }
+        congruence.
+    - intros E. apply existsb_eqb_In in E. apply in_map_iff in E as [n [Ha Hn]].
+      destruct (Hloc_tn n Hn Ha) as [Hs [args [ak ->]]].
+      rewrite evs_app, lookup_app.
+      set (n' := NField "__typename" "__typename" args ak [] false []).
+      assert (Hin' : In n' (map fst planned)).
+      { clear -Fp Hs. induction Fp as [|m p locs planned Hm _ IH]; [contradiction|]. destruct Hs as [->|Hs].
+        - cbn [child_plan] in Hm. inversion Hm; subst p. left; reflexivity.
+        - right. apply IH; exact Hs. }
+      change "__typename" with (n_alias n').
+      rewrite (lookup_evs w g (map fst planned) obj id n' Hfields); [reflexivity | rewrite Hal; exact Hlocs_nd | exact Hin'].
+  Qed.
+
+  Lemma frag_plan_shape : forall fuel svc l planned,
+    Forall2 (fun n p => frag_plan fuel svc n = Some p) l planned ->
+    all_frags (map fst planned) /\
+    forall q, In q (map fst planned) -> exists n cs, In n l /\ q = NFrag (n_alias n) [] cs.
+  Proof.
+    intros fuel svc l planned HF. induction HF as [|n p l planned Hp _ [IH1 IH2]]; [split; [constructor | intros q []]|].
+    destruct n as [|on dirs body]; [discriminate|]. cbn [frag_plan] in Hp.
+    destruct (plan_ty g pick fuel (RObj on) body svc) as [[cs cafters]|]; [|discriminate]. inversion Hp; subst p. simpl.
+    split; [constructor; [reflexivity | exact IH1]|]. intros q [<-|Hq].
+    - exists (NFrag on dirs body), cs. split; [left; reflexivity | reflexivity].
+    - destruct (IH2 q Hq) as [n [cs' [Hn Hq']]]. exists n, cs'. split; [right; exact Hn | exact Hq'].
+  Qed.
+
+  Lemma simv_str_inv : forall v s, simv v (JStr s) -> v = JStr s.
+  Proof. intros v s H. inversion H; reflexivity. Qed.
+
+  Theorem U_step : forall fuel, S_stmt w g pick fuel -> U_stmt w g pick (S fuel).
+  Proof.
+    intros fuel HS u subs svc cs cafters Hpl [Hnd [Hok' [ms [Hu Hcov]]]] Hnoq t i [ms' [Hu' Hin]].
+    rewrite Hu in Hu'. inversion Hu'; subst ms'. clear Hu'.
+    pose proof (all_frags_ok _ _ Hok') as Hfr.
+    destruct (plan_union_inv fuel u subs svc cs cafters Hpl Hfr) as [planned [Hp [-> ->]]].
+    pose proof (mapo_Forall2 _ _ _ Hp) as Fp.
+    (* the fragment of member t *)
+    eapply forallb_forall in Hcov; [|exact Hin]. apply existsb_exists in Hcov as [x [Hx Hxt]]. apply String.eqb_eq in Hxt.
+    pose proof Hx as Hx0. unfold all_frags in Hfr. rewrite Forall_forall in Hfr. pose proof (Hfr x Hx) as Hxf.
+    destruct x as [|on dirs body]; [discriminate|]. simpl in Hxt. subst on.
+    apply in_split in Hx as [l1 [l2 Hsplit]]. subst subs.
+    apply Forall2_app_inv_l in Fp as [p1 [p2' [F1 [F2 ->]]]]. inversion F2 as [|? pt ? p2 Hpt F3]; subst. clear F2.
+    assert (Hnd' : NoDup (map n_alias (l1 ++ NFrag t dirs body :: l2))) by (apply nodup_str_NoDup; exact Hnd).
+    rewrite map_app in Hnd'. simpl in Hnd'.
+    assert (Hne1 : forall n, In n l1 -> n_alias n <> t).
+    { intros n Hn He. apply NoDup_remove_2 in Hnd'. apply Hnd'. apply in_or_app. left. rewrite <- He. apply in_map; exact Hn. }
+    assert (Hne2 : forall n, In n l2 -> n_alias n <> t).
+    { intros n Hn He. apply NoDup_remove_2 in Hnd'. apply Hnd'. apply in_or_app. right. rewrite <- He. apply in_map; exact Hn. }
+    (* its plan *)
+    cbn [frag_plan] in Hpt. destruct (plan_ty g pick fuel (RObj t) body svc) as [[cs_t cafters_t]|] eqn:Ept; [|discriminate].
+    inversion Hpt; subst pt. clear Hpt.
+    eapply forallb_forall in Hok' as Hxok; [|exact Hx0]. cbn [node_ok] in Hxok. rewrite Hu in Hxok.
+    apply andb_prop in Hxok as [Hxok Hbok]. apply andb_prop in Hxok as [Hxok Hbnd]. apply andb_prop in Hxok as [Hxok Hbne].
+    apply andb_prop in Hxok as [Hd _]. destruct dirs; [|discriminate].
+    assert (Hflat : flat_ok g t body = true) by (unfold flat_ok; rewrite Hbnd, Hbok; reflexivity).
+    assert (Htq : t <> "Query") by (intros ->; apply (Hnoq ms Hu Hin)).
+    destruct (typename_local fuel t body svc cs_t cafters_t i Ept Hflat) as [Htn1 Htn2].
+    (* the object of member t, on both sides *)
+    destruct (frag_plan_shape _ _ _ _ F1) as [Fr1 Sh1]. destruct (frag_plan_shape _ _ _ _ F3) as [Fr3 Sh3].
+    set (pushed := if existsb (String.eqb "__typename") (map n_alias body) then [] else [("__typename", JStr t)]).
+    set (pre := key_kv K t i ++ pushed).
+    assert (Hlhs : pick_gen K EV (tn_sel :: map fst (p1 ++ (NFrag t [] cs_t, map (push_step (SType t)) cafters_t) :: p2)) t i
+                     (tn_sel :: map fst (p1 ++ (NFrag t [] cs_t, map (push_step (SType t)) cafters_t) :: p2)) =
+                   JObj (pre ++ evs EV cs_t t i)).
+    { set (all := tn_sel :: map fst (p1 ++ (NFrag t [] cs_t, map (push_step (SType t)) cafters_t) :: p2)).
+      assert (Hall : all = (tn_sel :: map fst p1) ++ (NFrag t [] cs_t :: map fst p2)) by (unfold all; rewrite map_app; reflexivity).
+      rewrite Hall at 2. rewrite pick_gen_skip.
+      - cbn [pick_gen]. rewrite String.eqb_refl. unfold all. rewrite pushed_eval.
+        + rewrite Htn1. unfold pre, pushed. rewrite <- app_assoc. reflexivity.
+        + rewrite map_app. apply Forall_app. split; [exact Fr1 | constructor; [reflexivity | exact Fr3]].
+      - intros n [<-|Hn]; [exact I|]. destruct (Sh1 n Hn) as [m [cs' [Hm ->]]]. apply Hne1; exact Hm. }
+    assert (Hrhs : pick_gen K EV (tn_sel :: map annot (l1 ++ NFrag t [] body :: l2)) t i
+                     (tn_sel :: map annot (l1 ++ NFrag t [] body :: l2)) =
+                   JObj (pre ++ evs EV (map annot body) t i)).
+    { set (all := tn_sel :: map annot (l1 ++ NFrag t [] body :: l2)).
+      assert (Hall : all = (tn_sel :: map annot l1) ++ (NFrag t [] (map annot body) :: map annot l2)) by (unfold all; rewrite map_app; reflexivity).
+      rewrite Hall at 2. rewrite pick_gen_skip.
+      - cbn [pick_gen]. rewrite String.eqb_refl. unfold all. rewrite pushed_eval.
+        + rewrite map_annot_aliases. unfold pre, pushed. rewrite <- app_assoc. reflexivity.
+        + apply Forall_forall. intros n Hn. apply in_map_iff in Hn as [m [<- Hm]]. rewrite annot_is_field. apply Hfr.
+          apply in_app_or in Hm as [Hm|[<-|Hm]]; apply in_or_app; [left | right; left | right; right]; auto.
+      - intros n [<-|Hn]; [exact I|]. apply in_map_iff in Hn as [m [<- Hm]]. pose proof (Hne1 m Hm) as Hne.
+        destruct m as [|on' d' b']; [exact I|]. simpl. exact Hne. }
+    rewrite Hlhs, Hrhs.
+    (* run the sub-plans: other members' blocks do nothing, member t's block is the object-level statement *)
+    assert (Hpre : pre_ok g pre t i body).
+    { split; [exists pushed; reflexivity|]. split.
+      - intros k Hk. unfold pre in Hk. rewrite map_app in Hk. apply in_app_or in Hk as [Hk|Hk].
+        + unfold key_kv in Hk. destruct (K t); [|contradiction]. destruct Hk as [<-|[]]. split; [|discriminate].
+          intros Hi. apply in_map_iff in Hi as [n [Hn Hi]]. destruct (node_alias_facts _ _ _ Hbok Hi) as [_ [H2 _]]. simpl in Hn. congruence.
+        + unfold pushed in Hk. destruct (existsb (String.eqb "__typename") (map n_alias body)) eqn:E; [contradiction|].
+          destruct Hk as [<-|[]]. split; [|discriminate]. intros Hi. apply (proj2 (existsb_eqb_In _ _)) in Hi. simpl fst in Hi. congruence.
+      - unfold pre, pushed, key_kv. apply Forall_app. split.
+        + destruct (K t); constructor; [exact I | constructor].
+        + destruct (existsb (String.eqb "__typename") (map n_alias body)); constructor; [exact I | constructor]. }
+    destruct (HS t body svc cs_t cafters_t Ept Hflat (or_introl Htq) i pre Hpre) as [kvs [fed [Hrun [Hpost _]]]].
+    assert (Htn_init : lookup "__typename" (pre ++ evs EV cs_t t i) = Some (JStr t)).
+    { unfold pre, pushed. rewrite <- app_assoc, !lookup_app.
+      assert (Hk : lookup "__typename" (key_kv K t i) = None) by (unfold key_kv; destruct (K t); reflexivity).
+      rewrite Hk. destruct (existsb (String.eqb "__typename") (map n_alias body)) eqn:E; [|reflexivity].
+      simpl. apply Htn2; reflexivity. }
+    assert (Htn_fin : lookup "__typename" (pre ++ kvs) = Some (JStr t)).
+    { unfold pre, pushed. rewrite <- app_assoc, !lookup_app.
+      assert (Hk : lookup "__typename" (key_kv K t i) = None) by (unfold key_kv; destruct (K t); reflexivity).
+      rewrite Hk. destruct (existsb (String.eqb "__typename") (map n_alias body)) eqn:E; [|reflexivity].
+      simpl. apply existsb_eqb_In in E. apply in_map_iff in E as [n [Ha Hn]].
+      destruct Hpost as [_ [_ Hvals]]. destruct (Hvals n Hn) as [v [Hl Hs]]. rewrite Ha in Hl. rewrite Hl. f_equal.
+      apply simv_str_inv.
+      eapply forallb_forall in Hbok as Hno; [|exact Hn]. destruct n as [al nm args ak dirs hs sb|]; [|discriminate].
+      simpl in Ha. subst al. cbn [node_ok] in Hno. apply andb_prop in Hno as [Hno _]. apply andb_prop in Hno as [Halok _].
+      destruct (alias_ok_parts _ _ Halok) as [_ [_ [_ Htn]]]. pose proof (proj1 Htn eq_refl) as Hnm. subst nm.
+      rewrite nval_annot in Hs. unfold fval_gen in Hs. rewrite String.eqb_refl in Hs. exact Hs. }
+    rewrite map_app. cbn [map snd]. rewrite concat_app. cbn [List.concat]. rewrite !RA_app.
+    rewrite (RA_other_members fuel svc t l1 p1 _ F1 Hne1 Htn_init). rewrite RA_app.
+    rewrite (RA_lift_type w g t cafters_t _ t Htn_init), String.eqb_refl, Hrun.
+    rewrite (RA_other_members fuel svc t l2 p2 _ F3 Hne2 Htn_fin).
+    eexists. split; [reflexivity|].
+    destruct Hpre as [_ [Hp2 Hp3]].
+    apply (post_simv w g t i body fed kvs pre Hpost (all_fields_ok g _ _ Hbok) (proj1 (nodup_str_NoDup _) Hbnd)); auto.
+    intros n Hn. apply (node_alias_facts _ _ _ Hbok Hn).
+  Qed.
+
+  (** values: null, lists, objects (the object statement) and union members (the union statement) *)
+  Theorem V_from : forall fuel, S_stmt w g pick fuel -> U_stmt w g pick fuel -> V_stmt w g pick fuel.
+  Proof.
+    intros fuel HS HU rty subs svc cs cafters Hpl Hsub Hnq Hnqu v. induction v using aval_ind'; intros Hv Hsv.
+    - exists JNull. split; [apply RA_null | constructor].
+    - destruct rty; simpl in Hv; try contradiction. destruct fuel; discriminate.
+    - (* an object *)
+      destruct rty as [|o|u]; simpl in Hv; try contradiction; [destruct fuel; discriminate|]. subst t.
+      destruct Hsub as [Hnd [Hok' _]].
+      assert (Hoq : o <> "Query") by (intros ->; apply Hnq; reflexivity).
+      assert (Hflat : flat_ok g o subs = true) by (unfold flat_ok; rewrite Hnd, Hok'; reflexivity).
+      assert (Hpre : pre_ok g (key_kv K o i) o i subs).
+      { split; [exists []; rewrite app_nil_r; reflexivity|]. split.
+        - intros k Hk. unfold key_kv in Hk. destruct (K o); [|contradiction]. destruct Hk as [<-|[]]. split; [|discriminate].
+          intros Hi. apply in_map_iff in Hi as [n [Hn Hi]]. destruct (node_alias_facts _ _ _ Hok' Hi) as [_ [H2 _]].
+          simpl in Hn. congruence.
+        - unfold key_kv. destruct (K o); constructor; [exact I | constructor]. }
+      destruct (HS o subs svc cs cafters Hpl Hflat (or_introl Hoq) i _ Hpre) as [kvs [fed [Hrun [Hpost _]]]].
+      cbn [render_gen]. unfold obj_gen. rewrite Hrun. eexists. split; [reflexivity|].
+      unfold asubs. rewrite (has_frag_fields _ (all_fields_ok g _ _ Hok')).
+      destruct Hpre as [_ [Hp2 Hp3]].
+      apply (post_simv w g o i subs fed kvs _ Hpost (all_fields_ok g _ _ Hok') (proj1 (nodup_str_NoDup _) Hnd)); auto.
+      intros n Hn. apply (node_alias_facts _ _ _ Hok' Hn).
+    - (* a union member *)
+      destruct rty as [|o|u]; simpl in Hv; try contradiction; [destruct fuel; discriminate|].
+      destruct Hv as [ms [Hu Hin]].
+      assert (Hhf : has_frag subs = true).
+      { destruct Hsub as [_ [Hok' [ms' [Hu' Hcov]]]]. rewrite Hu in Hu'. inversion Hu'; subst ms'.
+        eapply forallb_forall in Hcov; [|exact Hin]. apply existsb_exists in Hcov as [x [Hx _]].
+        pose proof (all_frags_ok _ _ Hok') as Hfr. unfold all_frags in Hfr. rewrite Forall_forall in Hfr.
+        unfold has_frag. apply existsb_exists. exists x. split; [exact Hx | rewrite (Hfr x Hx); reflexivity]. }
+      unfold asubs. rewrite Hhf. cbn [render_gen].
+      apply (HU u subs svc cs cafters Hpl Hsub (fun ms => Hnqu u ms eq_refl) t i). exists ms. auto.
+    - (* a list *)
+      apply scalars_ok_list in Hsv.
+      assert (Hvl : Forall (vok g rty) l).
+      { clear -Hv. simpl in Hv. induction l as [|x r IH]; constructor; [apply Hv | apply IH; apply Hv]. }
+      assert (Hex : exists ys, Forall2 (fun x y => RA cafters x = Some y) (map (render_gen K EV cs) l) ys /\
+                               Forall2 simv ys (map (render_gen K EV (asubs subs)) l)).
+      { clear Hv. induction l as [|x r IH]; [exists []; split; constructor|].
+        inversion H; subst. inversion Hsv; subst. inversion Hvl; subst.
+        destruct (IH H3 H5 H7) as [ys [A B]]. destruct (H2 H6 H4) as [y [Hy Hs]].
+        exists (y :: ys). split; constructor; auto. }
+      destruct Hex as [ys [A B]]. cbn [render_gen]. exists (JArr ys). split; [apply RA_arr; exact A | constructor; exact B].
+    - destruct rty; simpl in Hv; try contradiction. destruct fuel; discriminate.
+  Qed.
+
+  Theorem plan_sem : forall fuel, S_stmt w g pick fuel /\ U_stmt w g pick fuel /\ V_stmt w g pick fuel.
+  Proof.
+    induction fuel as [|fuel [IS [IU IV]]].
+    - assert (HS0 : S_stmt w g pick 0) by (intros obj sels svc ss afters H; discriminate).
+      assert (HU0 : U_stmt w g pick 0) by (intros u subs svc cs cafters H; discriminate).
+      split; [exact HS0 | split; [exact HU0 | apply V_from; assumption]].
+    - pose proof (S_step fuel IV IS) as HS. pose proof (U_step fuel IS) as HU.
+      split; [exact HS | split; [exact HU | apply V_from; assumption]].
+  Qed.
 End Core.
